@@ -42,8 +42,10 @@ class PandasMaterializer(FormulaMaterializer):
     @override
     def _is_categorical(self, values: Any) -> bool:
         if isinstance(values, (pandas.Series, pandas.Categorical)):
-            return values.dtype == object or isinstance(
-                values.dtype, pandas.CategoricalDtype
+            return (
+                values.dtype == object
+                or isinstance(values.dtype, pandas.CategoricalDtype)
+                or pandas.api.types.is_string_dtype(values.dtype)
             )
         return super()._is_categorical(values)
 
